@@ -109,6 +109,15 @@ def main_scratch(d, checks, tier, patch, demo):
     finally:
         shutil.rmtree(tree, ignore_errors=True)
         shutil.rmtree(out, ignore_errors=True)
+    # results of other checks against the same /repo HEAD are kept (a later run adds the
+    # neighbours of a property's own check)
+    try:
+        old = json.load(open(os.path.join(d, "result.json")))
+        if old.get("repo_head") == res["repo_head"] and old.get("scratch"):
+            for c, v in old.get("checks", {}).items():
+                res["checks"].setdefault(c, v)
+    except (OSError, ValueError):
+        pass
     with open(os.path.join(d, "result.json"), "w") as f:
         json.dump(res, f, indent=1)
     print(json.dumps({k: v for k, v in res.items() if k != "checks"}))
